@@ -9,8 +9,8 @@ from props.c13 import R, LOGDIR, BIG, rec_bytes, _collect, decode_read
 HEAD = '/state/head.json'
 
 
-def scenario_factory(nops, modes, planted=None, max_restarts=2):
-    OPS = ['write', 'read', 'save', 'save_crash', 'crash_restart', 'close_restart']
+def scenario_factory(nops, modes, planted=None, max_restarts=2, ops=None):
+    OPS = ops or ['write', 'read', 'save', 'save_crash', 'crash_restart', 'close_restart']
     def scenario(e):
         mode = modes[e.choice('mode', len(modes))] if len(modes) > 1 else modes[0]
         fs = FS(e)
@@ -118,10 +118,14 @@ def harnesses(tier):
     stubs = ['fakefs with crash injection at a chosen mutation', 'digit tokens', 'virtual clock']
     assume = ['rename is atomic and a crash loses no completed file-system operation (process crash, not power loss)', 'no pruning/deletion in this harness (total_size large)',
               'timestamps exact microseconds']
-    return [Harness('c14.head_crash', scenario_factory(5 if q else 6, ['txt'] if q else ['txt', 'bin']), twin=scenario_factory(4, ['txt'], planted=True),
-                    bounds={'operations': 5 if q else 6, 'op kinds': 'write read save save-with-crash(create/write/rename, torn tmp 0/7/14 bytes) crash-restart close-restart',
+    hs = [Harness('c14.head_crash', scenario_factory(5, ['txt'] if q else ['txt', 'bin']), twin=scenario_factory(4, ['txt'], planted=True),
+                    bounds={'operations': 5, 'modes': 'txt' if q else 'txt, bin', 'op kinds': 'write read save save-with-crash(create/write/rename, torn tmp 0/7/14 bytes) crash-restart close-restart',
                             'restarts': '<=2', 'file_size': 'unbounded Int >= 1', 'timestamps': 'unbounded Int'},
-                    functions=fn, stubs=stubs, assumptions=assume, budget_s=900 if q else 2400)]
+                    functions=fn, stubs=stubs, assumptions=assume, budget_s=900)]
+    if not q:
+        hs.append(Harness('c14.head_crash.7ops', scenario_factory(7, ['txt'], ops=['write', 'read', 'save_crash', 'crash_restart']),
+                          bounds={'operations': 7, 'op kinds': 'write read save-with-crash crash-restart', 'restarts': '<=2'}, functions=fn, stubs=stubs, assumptions=assume, budget_s=900))
+    return hs
 
 
 EXPLANATION = ('bounded symbolic execution of the real rolllog.py reader with a persisted head over the in-memory file system; the crash point is a symbolic index '
